@@ -69,7 +69,7 @@ impl Check for C01 {
     fn run_case(&self, cx: &mut Ctx, _case: u64, rng: &mut Rng) {
         let enc = enc_for(rng);
         let n = rng.range(2, cx.tier.pick(4, 5));
-        let mut w = World::new(rng, n, enc, Profile::contention());
+        let mut w = World::new(rng, n, enc, Profile { text_elem_ops: rng.clone().chance(40), ..Profile::contention() });
         w.verbose = cx.verbose;
         let steps = rng.range(15, cx.tier.pick(70, 200));
         w.run(rng, steps);
